@@ -64,6 +64,16 @@ POOLS = {
         ("TimeStamp", 2.25),
         ("BoundingBox", [8, 0, 9, 1000]),
     ],
+    # thin (buffered) kinds placed at gaps between one and two buffers, in time and in frequency, for both buffer settings:
+    # two buffered geometries still overlap up to a gap of 2 x buffer (a pre-filter with half the slack loses these pairs)
+    "thin6": [
+        ("TimeStamp", 2.25),
+        ("TimeStamp", 2.265),                   # gap 0.015 in (0.01, 0.02]: overlaps 2.25 under the default time buffer
+        ("TimeStamp", 3.0),                     # gap 0.75 in (0.5, 1.0]: overlaps 2.25 under the 0.5 s buffer
+        ("Point", [2.25, 1000]),
+        ("Point", [2.265, 1000]),
+        ("Point", [2.25, 1150]),                # frequency gap 150 in (100, 200]
+    ],
     # the remaining geometry types (+ one box for cross-type pairs)
     "x7": [
         ("Point", [1, 1000]),
@@ -80,8 +90,8 @@ BUFFERS = [None, [0.5, 1000.0]]
 
 # (pool, maximum list length, number of shards per buffer setting)
 PLAN = {
-    "quick": [("q6", 3, 32)],
-    "thorough": [("q6", 3, 8), ("t5", 4, 40), ("x7", 3, 16)],
+    "quick": [("q6", 3, 32), ("thin6", 2, 2)],
+    "thorough": [("q6", 3, 8), ("t5", 4, 40), ("x7", 3, 16), ("thin6", 3, 8)],
 }
 
 
